@@ -267,5 +267,15 @@ def rule_r6(ctx) -> RuleResult:
     raise AnalysisError("list_fn: the prefix comparison has an unrecognised shape (inconclusive)")
 
 
+def rule_r7(ctx) -> RuleResult:
+    """Lists and headings are only recognised at the beginning of a line, a state the parser keeps in
+    context attributes: it is re-initialised by every parse or balanced by the `with` manager
+    (shared with C01.R7)."""
+    from ..core.report import shared
+    from . import c01
+
+    return shared(c01.rule_r7(ctx), "C02.R7", "beginning-of-line state is reset per parse and balanced by its manager (shared with C01.R7)",
+                  "after a parse that left the state disabled, list lines of later pages stay plain text", min_instances=5)
+
 def run(ctx) -> list:
-    return [rule_r1(ctx), rule_r2(ctx), rule_r3(ctx), rule_r4(ctx), rule_r5(ctx), rule_r6(ctx)]
+    return [rule_r1(ctx), rule_r2(ctx), rule_r3(ctx), rule_r4(ctx), rule_r5(ctx), rule_r6(ctx), rule_r7(ctx)]
